@@ -61,6 +61,8 @@ type Scenario struct {
 	SlowLogMs int    `json:"slow_logger_ms,omitempty"`
 	// SlowHandler: the application's connection-level event handler ("disconnected" | "reconnected") takes SlowHandlerMs
 	// (virtual); the library calls these handlers inline in its reconnect loop.
+	// CloseFails: the transport's Close reports an error after closing ("broken": on a broken link only).
+	CloseFails    string `json:"transport_close_reports_error,omitempty"`
 	SlowHandler   string `json:"slow_event_handler,omitempty"`
 	SlowHandlerMs int    `json:"slow_event_handler_ms,omitempty"`
 }
@@ -406,6 +408,7 @@ func Run(s Scenario) *Outcome {
 			opts = append(opts, iscp.VerifWithSentStorage(store))
 		}
 	}
+	w.Net.CloseFails = s.CloseFails
 	slowLogSlack := 4*time.Duration(s.SlowLogMs)*time.Millisecond + 4*time.Duration(s.SlowHandlerMs)*time.Millisecond
 	conn, err := w.Connect(opts...)
 	if err != nil {
